@@ -122,11 +122,66 @@ fn total<T: CmpElem + Ord, N: ArrayLength>(x: &GenericArray<T, N>, y: &GenericAr
     (x.cmp(y), x.as_slice().cmp(y.as_slice()))
 }
 
+/// records the exact sequence of `Hasher` method calls (method and argument): "feeds a hasher
+/// exactly what hashing its slice feeds it" includes the call boundaries, which word-at-a-time
+/// hashers (FxHash style) are sensitive to
+#[derive(Default)]
+struct Calls(Vec<String>);
+impl Hasher for Calls {
+    fn finish(&self) -> u64 { 0 }
+    fn write(&mut self, bytes: &[u8]) { self.0.push(format!("w[{}]", bytes.iter().map(|x| format!("{:02x}", x)).collect::<String>())); }
+    fn write_u8(&mut self, i: u8) { self.0.push(format!("u8:{}", i)); }
+    fn write_u16(&mut self, i: u16) { self.0.push(format!("u16:{}", i)); }
+    fn write_u32(&mut self, i: u32) { self.0.push(format!("u32:{}", i)); }
+    fn write_u64(&mut self, i: u64) { self.0.push(format!("u64:{}", i)); }
+    fn write_u128(&mut self, i: u128) { self.0.push(format!("u128:{}", i)); }
+    fn write_usize(&mut self, i: usize) { self.0.push(format!("usize:{}", i)); }
+    fn write_i8(&mut self, i: i8) { self.0.push(format!("i8:{}", i)); }
+    fn write_i16(&mut self, i: i16) { self.0.push(format!("i16:{}", i)); }
+    fn write_i32(&mut self, i: i32) { self.0.push(format!("i32:{}", i)); }
+    fn write_i64(&mut self, i: i64) { self.0.push(format!("i64:{}", i)); }
+    fn write_i128(&mut self, i: i128) { self.0.push(format!("i128:{}", i)); }
+    fn write_isize(&mut self, i: isize) { self.0.push(format!("isize:{}", i)); }
+}
+fn calls<T: Hash + ?Sized>(v: &T) -> Vec<String> {
+    let mut r = Calls::default();
+    v.hash(&mut r);
+    r.0
+}
+/// a word-at-a-time hasher in the FxHash style: its result depends on how the bytes are split into calls
+#[derive(Default)]
+struct Fx(u64);
+impl Fx {
+    fn add(&mut self, w: u64) { self.0 = (self.0.rotate_left(5) ^ w).wrapping_mul(0x51_7c_c1_b7_27_22_0a_95); }
+}
+impl Hasher for Fx {
+    fn finish(&self) -> u64 { self.0 }
+    fn write(&mut self, bytes: &[u8]) {
+        for c in bytes.chunks(8) {
+            let mut w = [0u8; 8];
+            w[..c.len()].copy_from_slice(c);
+            self.add(u64::from_le_bytes(w));
+        }
+    }
+    fn write_u8(&mut self, i: u8) { self.add(i as u64); }
+    fn write_u16(&mut self, i: u16) { self.add(i as u64); }
+    fn write_u32(&mut self, i: u32) { self.add(i as u64); }
+    fn write_u64(&mut self, i: u64) { self.add(i); }
+    fn write_usize(&mut self, i: usize) { self.add(i as u64); }
+}
+fn fx_hash<T: Hash + ?Sized>(v: &T) -> u64 {
+    let mut h = Fx::default();
+    v.hash(&mut h);
+    h.finish()
+}
+
 fn hash_op<T: CmpElem + Hash, N: ArrayLength>(kv: &KV) -> String {
     let Some(a) = parse_arr::<T, N>(get(kv, "a")) else { return "bad-op".to_string() };
     let mut f = Vec::new();
     let s = stream(&a);
     if s != stream(a.as_slice()) { f.push("stream"); }
+    if calls(&a) != calls(a.as_slice()) { f.push("hasher-call-sequence"); }
+    if fx_hash(&a) != fx_hash(a.as_slice()) { f.push("word-hasher"); }
     if std_hash(&a) != std_hash(a.as_slice()) { f.push("default-hasher"); }
     format!("stream={} | orc={}", s, orc(f))
 }
